@@ -47,6 +47,7 @@ class _PullToPush:
     """
 
     _finished = False
+    _paused = False
 
     def __init__(self, pullProducer, consumer):
         self._producer = pullProducer
@@ -102,13 +103,20 @@ class _PullToPush:
         """
         @see: C{IPushProducer.pauseProducing}
         """
-        self._coopTask.pause()
+        # Transports re-issue pauseProducing() on every write made while
+        # their buffer is full and call resumeProducing() once when it has
+        # drained, so being paused is a state here, not a count.
+        if not self._paused:
+            self._paused = True
+            self._coopTask.pause()
 
     def resumeProducing(self):
         """
         @see: C{IPushProducer.resumeProducing}
         """
-        self._coopTask.resume()
+        if self._paused:
+            self._paused = False
+            self._coopTask.resume()
 
     def stopProducing(self):
         """
